@@ -246,7 +246,19 @@ func checkNullableFields(p *Prog, r *Report, kp func(string, string) string) {
 			var res []string
 			collide, undecided := true, false
 			nValidators := 0
-			for _, fn := range reach.Order {
+			// candidates: what ValidateBasic reaches by definite call edges, plus every hand-written function of the owner's package
+			// (a validator split into check methods that are called through a table of bound methods is reached by no definite edge)
+			cands := append([]*ssa.Function{}, reach.Order...)
+			seenC := map[*ssa.Function]bool{}
+			for _, f := range cands {
+				seenC[f] = true
+			}
+			for _, f := range p.ModFuncs {
+				if !seenC[f] && f.Blocks != nil && !p.IsGenerated(f) && nf.owner.Obj().Pkg() != nil && pkgPathOf(f) == nf.owner.Obj().Pkg().Path() && f.Parent() == nil {
+					cands = append(cands, f)
+				}
+			}
+			for _, fn := range cands {
 				pi := -1
 				for i, prm := range fn.Params {
 					t := prm.Type()
@@ -304,12 +316,16 @@ func checkNullableFields(p *Prog, r *Report, kp func(string, string) string) {
 				for _, ret := range returnsOf(fn) {
 					rv := unspill(ret.Results[len(ret.Results)-1])
 					accepting := true
+					var extra *Formula
 					if c, isC := rv.(*ssa.Const); isC {
 						if isBool {
 							accepting = c.Value != nil && constant.BoolVal(c.Value)
 						} else {
 							accepting = c.IsNil()
 						}
+					} else if isBool {
+						// `return pred(x)`: accepting when the returned value is true
+						extra = fa.ValueFormula(rv)
 					} else if !isBool {
 						// `return err` of a failed helper, or a wrapped error: a rejecting return unless it is a success pass-through
 						accepting = false
@@ -322,7 +338,11 @@ func checkNullableFields(p *Prog, r *Report, kp func(string, string) string) {
 					// only accepting returns that come after the field has been looked at: an accepting return before that (a
 					// tombstone accepted at once) belongs to values the messages' own checks exclude
 					if accepting && after[ret.Block()] {
-						acc = append(acc, fa.At(ret.Block()))
+						F := fa.At(ret.Block())
+						if extra != nil {
+							F = fAnd(F, extra)
+						}
+						acc = append(acc, F)
 					}
 				}
 				A := fOr(acc...)
